@@ -154,7 +154,14 @@ def qualified(h):
 
 def run_group(scratch, crate, flags, harnesses, jobs, outdir):
     names = [qualified(h) for h in harnesses]
-    tmo = max(h.timeout for h in harnesses)
+    # harness timeouts are calibrated on an idle 16-core machine: stretch them when the machine is busy
+    # (other checks, builds), so that load alone never turns a discharged obligation into UNDECIDED
+    try:
+        load = os.getloadavg()[0] / float(NCPU)
+    except OSError:
+        load = 0.0
+    scale = float(os.environ.get("VERIF_TIMEOUT_SCALE", "1.5")) * max(1.0, load)
+    tmo = int(max(h.timeout for h in harnesses) * scale)
     mem = max(h.mem for h in harnesses)
     tag = "%s-%s-%d" % (crate, "_".join(flags) or "std", os.getpid())
     export = os.path.join(outdir, "kani-%s.json" % tag)
